@@ -207,7 +207,13 @@ def cdecay_case(draw):
                 cc.append([a, b])
             elif k == 3:
                 cc.append([b, a])
-    return {"mother": mother, "d": ds, "cc": cc}
+    # Alias statements (of self-conjugate and other particles) do not make a name's conjugate known
+    al = []
+    for nm in ("MyJ/psi", "MyK_S0", "Mypi+"):
+        if draw(st.sampled_from((False, False, True))):
+            ds.append(nm)
+            al.append([nm, {"MyJ/psi": "J/psi", "MyK_S0": "K_S0", "Mypi+": "pi+"}[nm]])
+    return {"mother": mother, "d": ds, "cc": cc, "alias": al}
 
 
 def check_cdecay(case, rec):
@@ -216,7 +222,7 @@ def check_cdecay(case, rec):
     m, ds = case["mother"], case["d"]
     mb = N.ref_conj(m)
     ccd = {a: b for a, b in case.get("cc", [])}
-    text = "".join(f"ChargeConj {a} {b}\n" for a, b in case.get("cc", [])) + f"Decay {m}\n1.0 {' '.join(ds)} PHSP;\nEnddecay\nCDecay {mb}\n"
+    text = "".join(f"Alias {a} {b}\n" for a, b in case.get("alias", [])) + "".join(f"ChargeConj {a} {b}\n" for a, b in case.get("cc", [])) + f"Decay {m}\n1.0 {' '.join(ds)} PHSP;\nEnddecay\nCDecay {mb}\n"
     p = make_parser(text, ID)
     with impl(ID, "list_decay_modes"):
         modes = p.list_decay_modes(mb)
